@@ -1556,6 +1556,11 @@ class Interp:
             if getattr(self, "trace", None) is not None:
                 self.trace.append(("compare", a, b, site))
             if type(a) is type(b):
+                if isinstance(a, ADigest) and a != b and (a.algo, a.kind, a.lo, a.hi, a.step) == (b.algo, b.kind, b.lo, b.hi, b.step):
+                    # the digest of no data equals the digest of a text exactly when the text is empty
+                    empty, other = (a, b) if not a.data else ((b, a) if not b.data else (None, None))
+                    if empty is not None and len(other.data) == 1 and isinstance(other.data[0], ABytes) and isinstance(other.data[0].src, Sym):
+                        return self.choose(f"equal({other.data[0].src.src}, literal) [the text is empty] at {site}")
                 return a == b            # digests of different opaque texts are different values
             if isinstance(a, (Sym, Tmpl)) or isinstance(b, (Sym, Tmpl)):
                 # a digest against stored text (e.g. the class-level default ""): never equal to a real digest's text
@@ -2223,6 +2228,34 @@ class Interp:
         if target.kind == "model":
             if isinstance(v, Obj) and v.cls.name == target.name:
                 return v
+            # pydantic v1 BaseModel.validate: a value that is not the model nor a dict is tried as dict(value) - a sequence of
+            # pairs (a tuple literal whose members are all two-element tuples) is one.  Which keys it has depends on the literals.
+            pairs = None
+            if isinstance(v, AList) and v.items and all(isinstance(x, AList) and len(x.items) == 2 for x in v.items):
+                pairs = [(x.items[0], x.items[1]) for x in v.items]
+            elif isinstance(v, ADict):
+                pairs = [(self._unkey(k_), x) for k_, x in v.items.items()]
+            if pairs is not None:
+                fields_, _sm = self.model_fields(target)
+                got = {}
+                for fname_, _ann, default_, _st in fields_:
+                    for key_, val_ in pairs:
+                        if isinstance(key_, Tmpl) and key_.is_literal():
+                            hit = key_.text() == fname_
+                        elif isinstance(key_, Sym) and key_.kind == "str":
+                            hit = self.choose(f"{key_.src} == {fname_!r} (a sequence of pairs is read as dict(value) for {target.name}) at {fsite}")
+                        else:
+                            hit = False
+                        if hit:
+                            got[fname_] = val_
+                    if fname_ not in got and default_ is None and "Optional" not in norm(_ann) and "None" not in norm(_ann):
+                        raise _NoCoerce(nm)
+                try:
+                    obj = self.model_construct(target, [], got, site)
+                except (RaiseSig, _NoCoerce):
+                    raise _NoCoerce(nm)
+                self.pyd_events.append(("pairs->model", where, fsite, f"{target.name}"))
+                return obj
             raise _NoCoerce(nm)
         raise Unsupported(f"pydantic field type {nm} of {where} is not modelled")
 
